@@ -220,8 +220,9 @@ func brkName(b uaxref.Brk) string {
 	return "mandatory break"
 }
 
-// collectSegments drains an iterator (bounded: a correct iterator yields at most len(text)
-// segments) and checks the structural clause: consecutive, non-empty, concatenating to the input.
+// checkStructure checks the structural clause on a drained iterator (the drain is bounded: a
+// correct iterator yields at most len(text) segments): segments are consecutive, non-empty, their
+// Text equals the input slice at Offset, and they concatenate to the input.
 func checkStructure(f *failer, what string, text []rune, segs []segRec, texts [][]rune, overrun bool) bool {
 	n := len(text)
 	if overrun {
@@ -296,15 +297,13 @@ func libWords(seg *segmenter.Segmenter, n int) (segs []segRec, texts [][]rune, o
 	return
 }
 
-// checkText evaluates the property on one text for the selected algorithms. It returns whether the
-// case is non-trivial (length >= 2 and a rule other than LB31 / GB999 / WB999 decides an interior
-// position of one of the selected algorithms).
+// libResult is everything the code under test produced for one text.
 type libResult struct {
-	lines, graphemes, words                []segRec
-	lineTexts, graphemeTexts, wordTexts    [][]rune
-	lineOver, graphemeOver, wordOver       bool
-	flags                                  []bool
-	panicked                               any
+	lines, graphemes, words             []segRec
+	lineTexts, graphemeTexts, wordTexts [][]rune
+	lineOver, graphemeOver, wordOver    bool
+	flags                               []bool
+	panicked                            any
 }
 
 // runLib runs the code under test on a fresh Segmenter (history independence is a separate
@@ -337,6 +336,7 @@ func runLib(algos int, text []rune) (res libResult) {
 func checkText(t ev.TB, check string, algos int, text []rune) (nontrivial bool) {
 	f := &failer{t: t, check: check, algos: algos, text: text}
 	n := len(text)
+	excluded := &exclSet{}
 	lib := runLib(algos, text)
 	if lib.panicked != nil {
 		f.fail("panic", "panic in the segmenter: %v", lib.panicked)
@@ -370,8 +370,9 @@ func checkText(t ev.TB, check string, algos int, text []rune) (nontrivial bool) 
 			}
 			for i := 1; i <= n; i++ {
 				if got[i] != ref[i] {
-					if knownLine(text, i, ref[i], got[i]) {
-						break
+					if id := knownLine(text, i, ref[i], got[i], rules[i]); id != "" && ev.Known(id) {
+						excluded.add(id)
+						continue // only this position is excused
 					}
 					f.fail(patternKey("line", lineSig, text, i, fmt.Sprintf("want %s (%s) got %s", brkName(ref[i]), lineRuleNames[rules[i]], brkName(got[i]))),
 						"line break status at position %d: UAX #14 gives %q (rule %s), LineIterator gives %q", i, brkName(ref[i]), lineRuleNames[rules[i]], brkName(got[i]))
@@ -404,8 +405,9 @@ func checkText(t ev.TB, check string, algos int, text []rune) (nontrivial bool) 
 			}
 			for i := 1; i <= n; i++ {
 				if gotb[i] != ref[i] {
-					if knownGrapheme(text, i, ref[i]) {
-						break
+					if id := knownGrapheme(text, i, ref[i], rules[i]); id != "" && ev.Known(id) {
+						excluded.add(id)
+						continue
 					}
 					f.fail(patternKey("grapheme", graphemeSig, text, i, fmt.Sprintf("want boundary=%v (%s)", ref[i], gRuleNames[rules[i]])),
 						"grapheme boundary at position %d: UAX #29 gives %v (rule %s), GraphemeIterator gives %v", i, ref[i], gRuleNames[rules[i]], gotb[i])
@@ -437,10 +439,11 @@ func checkText(t ev.TB, check string, algos int, text []rune) (nontrivial bool) 
 		}
 		for i := 0; flagsOK && i <= n; i++ {
 			if flags[i] != ref[i] {
-				flagsOK = false
-				if knownWord(text, i, ref[i]) {
-					break
+				if id := knownWord(text, i, ref[i], rules[i]); id != "" && ev.Known(id) {
+					excluded.add(id)
+					continue
 				}
+				flagsOK = false
 				f.fail(patternKey("word", wordSig, text, i, fmt.Sprintf("want boundary=%v (%s)", ref[i], wRuleNames[rules[i]])),
 					"word boundary at position %d: UAX #29 gives %v (rule %s), the segmenter flags %v", i, ref[i], wRuleNames[rules[i]], flags[i])
 			}
@@ -451,7 +454,7 @@ func checkText(t ev.TB, check string, algos int, text []rune) (nontrivial bool) 
 			var want []segRec
 			start := 0
 			for i := 1; i <= n; i++ {
-				if ref[i] {
+				if flags[i] { // equal to the reference except at positions excused by a listed finding
 					if unicode.Is(ucd.Word, text[start]) {
 						want = append(want, segRec{Off: start, Len: i - start})
 					}
@@ -462,20 +465,26 @@ func checkText(t ev.TB, check string, algos int, text []rune) (nontrivial bool) 
 			if over {
 				f.fail("WordIterator: does not terminate", "WordIterator yields more than len(text)+1 words")
 			} else {
-				checkWords(f, text, want, got, texts)
+				checkWords(f, text, flags, want, got, texts, excluded)
 			}
 		}
+	}
+	for _, id := range excluded.ids {
+		ev.Excluded(id)
 	}
 	return nontrivial && n >= 2
 }
 
-func checkWords(f *failer, text []rune, want, got []segRec, texts [][]rune) {
+func checkWords(f *failer, text []rune, flags []bool, want, got []segRec, texts [][]rune, excluded *exclSet) {
+	if id := knownWordIter(text, flags, want, got); id != "" && ev.Known(id) {
+		// weaker predicate checked by the matcher itself: exactly the words that the adjacency skip
+		// loses are missing, every other word is returned correctly
+		excluded.add(id)
+		want = got
+	}
 	for k := 0; k < len(want) || k < len(got); k++ {
 		switch {
 		case k >= len(got):
-			if knownWordIter(text, want, got, k) {
-				return
-			}
 			f.fail(patternKey("worditer", wordSig, text, want[k].Off, "word not returned"),
 				"WordIterator returned %d words, missing the word [%d,%d) (between two consecutive UAX #29 word boundaries, starts with a Word rune)", len(got), want[k].Off, want[k].Off+want[k].Len)
 			return
@@ -484,9 +493,6 @@ func checkWords(f *failer, text []rune, want, got []segRec, texts [][]rune) {
 				"WordIterator returned an extra segment [%d,%d) that is not an inter-boundary segment starting with a Word rune", got[k].Off, got[k].Off+got[k].Len)
 			return
 		case want[k] != got[k]:
-			if knownWordIter(text, want, got, k) {
-				return
-			}
 			f.fail(patternKey("worditer", wordSig, text, want[k].Off, "word skipped or wrong"),
 				"WordIterator word %d is [%d,%d), expected [%d,%d) (next inter-boundary segment starting with a Word rune)", k, got[k].Off, got[k].Off+got[k].Len, want[k].Off, want[k].Off+want[k].Len)
 			return
@@ -502,17 +508,6 @@ func checkWords(f *failer, text []rune, want, got []segRec, texts [][]rune) {
 			}
 		}
 	}
-}
-
-// ---- known findings (structural matchers; active only for ids listed as open) ----
-// None of the defects found on the pinned tree needed one: each has a small patch in
-// /verif/proposed_fixes. The hooks stay so that a future unrepaired defect can be matched narrowly.
-
-func knownLine(text []rune, i int, want, got uaxref.Brk) bool { return false }
-func knownGrapheme(text []rune, i int, want bool) bool        { return false }
-func knownWord(text []rune, i int, want bool) bool            { return false }
-func knownWordIter(text []rune, want, got []segRec, k int) bool {
-	return false
 }
 
 // ---- 1. oracle self-test ----
@@ -699,7 +694,7 @@ func TestEnumWord(t *testing.T) {
 // TestEnumJoint enumerates short sequences over the joint signature (raw line class before LB1,
 // grapheme class, word class, Word property, the special runes) through all three algorithms.
 func TestEnumJoint(t *testing.T) {
-	enumerate(t, "enum-joint", algoAll, repsBy(jointSig), envLen("C06_JOINT_LEN", ev.Scale(2, 3)))
+	enumerate(t, "enum-joint", algoAll, repsBy(jointSig), envLen("C06_JOINT_LEN", 3))
 }
 
 // ---- 6. replay ----
